@@ -74,9 +74,17 @@ TCol == /\ Ev.op = "Col"
         /\ bad' = IF Ev.res = POccColSeq0(Ev.p, Ev.q, Ev.cp, Ev.cq) THEN bad ELSE Flag("ColouredOccurrences")
         /\ UNCHANGED <<vars, drift>>
 
+\* permutations of more than a thousand entries against patterns of length <= 3: containment decided by the definition with
+\* the position tuple found by nested quantifiers (PContainsQ); the call must return (raised = FALSE)
+TLongPred == /\ Ev.op = "LongPred"
+             /\ bad' = IF ~Ev.raised /\ Ev.res = (IF Ev.kind = "contains" THEN \A i \in DOMAIN Ev.ps : PContainsQ(Ev.q, Ev.ps[i])
+                                                                           ELSE \A i \in DOMAIN Ev.ps : ~PContainsQ(Ev.q, Ev.ps[i]))
+                       THEN bad ELSE Flag("PredicatesAgree")
+             /\ UNCHANGED <<vars, drift>>
+
 TNext == /\ l <= Len(Trace)
          /\ l' = l + 1
-         /\ (TNew \/ TSearch \/ TSearchedIn \/ TSearchCol \/ TPred \/ TCol \/ TOpenIter \/ TStepIter)
+         /\ (TNew \/ TSearch \/ TSearchedIn \/ TSearchCol \/ TPred \/ TCol \/ TOpenIter \/ TStepIter \/ TLongPred)
 
 \* every invariant of the machine is evaluated at every step of the real execution
 TraceDone == l = Len(Trace) + 1 => PrintT(ToJson([verdict |-> bad, drift |-> drift, n |-> Len(Trace)]))
